@@ -436,6 +436,16 @@ func statelessRule(e *Env, rule string, rels ...string) {
 				if !isResult {
 					continue
 				}
+				// a cache is a map that the same function (or its closures) also fills; a constant table is not
+				filled := false
+				allInstrs(rootFn(fn), func(_ *ssa.Function, i2 ssa.Instruction) {
+					if mu, isMu := i2.(*ssa.MapUpdate); isMu && (mu.Map == lk.X || sameLoad(mu.Map, lk.X) || sameCell(mu.Map, lk.X)) {
+						filled = true
+					}
+				})
+				if !filled {
+					continue
+				}
 				memo++
 				e.R.Violate(rule, e.P.FuncKey(fn)+"#memoised-result", fmt.Sprintf("a compiled result (%s) is read back from a map: an element that agrees with an earlier one on the key but differs elsewhere gets the earlier one's result", nt.Obj().Name()), nil, e.P.Pos(lk.Pos()))
 			}
